@@ -105,6 +105,16 @@ def gen_history(rng, hid, length):
             calls.append({"call": "close", "abi": abi(), "fd": fd})
             if rng.random() < 0.7:
                 fds.remove(fd)
+    # where the segments of a vector lie in guest memory is the guest's business: in slots of their own, one directly behind the other (an
+    # empty segment then points at the end of its predecessor), or with an empty segment pointing at the start of its successor
+    lrng = random.Random(SEED * 7919 + hid)
+    for c_ in calls:
+        if c_["call"] in ("read", "pread", "write", "pwrite"):
+            c_["iovlayout"] = lrng.choice([0, 0, 0, 1, 2])
+    if hid % 6 == 0 and fds:
+        # non-empty, empty, non-empty: the middle one shares its address with the one behind it
+        calls.append({"call": "write", "abi": "p", "fd": fds[-1], "segs": [[0x41, 0x42, 0x43], [], [0x44, 0x45]], "iovlayout": 2})
+        calls.append({"call": "pread", "abi": "u", "fd": fds[-1], "offset": 0, "lens": [2, 0, 3, 0, 1], "iovlayout": 2})
     return {"id": "h%d" % hid, "setup": setup, "calls": calls}
 
 
